@@ -88,7 +88,9 @@ func UpdatePathAttrs2ByteAs(msg *bgp.BGPUpdate) {
 		}
 	}
 	msg.PathAttributes[idx] = bgp.NewPathAttributeAsPath(as2Params)
-	if mkAs4 {
+	// a 4-octet member of a confederation segment alone makes no AS4_PATH:
+	// those segments are not copied, and an empty AS4_PATH is malformed
+	if mkAs4 && len(as4Params) > 0 {
 		msg.PathAttributes = append(msg.PathAttributes, bgp.NewPathAttributeAs4Path(as4Params))
 	}
 }
